@@ -75,6 +75,17 @@ Theorem C15code_renders_tree : forall t fuel,
 Proof. exact gen_renders_tree. Qed.
 Print Assumptions C15code_renders_tree.
 
+(** ... with nothing left to assume but the size of the document: the number of
+    calls below the loop fuel, every name / string shorter than the fuel, and
+    calls^2 plus the text well inside Go's int *)
+Theorem C15code_renders_tree_bounded : forall t fuel,
+  let ops := ops_of t in
+  (length ops < fuel)%nat -> Forall (fun op => op_len op < fuel)%nat ops ->
+  (Z.of_nat (length ops) * (2 * Z.of_nat (length ops) + 8) + Z.of_nat (ops_extra ops) + 17 < 4611686018427387904)%Z ->
+  exists g1 g2, gen_run fuel gen_init ops = Ok g1 /\ JSONOutput_Done fuel g1 = Ok (g2, render 0 false t ++ [10]).
+Proof. exact gen_renders_tree_bounded. Qed.
+Print Assumptions C15code_renders_tree_bounded.
+
 Example C15gen_run_ex :
   let ops := ops_of (TObj [([97], TArr [TScalar (STok [49]); TObj []]); ([], TScalar (SStr [34; 10]))]) in
   (do g <- gen_run 20 gen_init ops; do r <- JSONOutput_Done 20 g; Ok (snd r))
